@@ -133,12 +133,14 @@ def enumerate_cases(tier, seed):
     k = seed % len(strings)
     strings = strings[k:] + strings[:k]
     base = baselines(strings + [SIBLINGS[s] for s in strings])
+    # the merged searches are the longest single cases: they go first so that they run beside the history cases
+    for si, s in enumerate(strings):
+        yield ("bfs", {"s": s, "depth": 3 if tier == "quick" else 5, "base": base[s], "sib": SIBLINGS[s], "sib_base": base[SIBLINGS[s]]})
     for si, s in enumerate(strings):
         depth = 3 if (tier == "thorough" and si < 2) else 2
         for first in OPS:
             for inst in (0, 1):
                 yield ("histories", {"s": s, "first": [first, inst], "depth": depth, "base": base[s], "sib": SIBLINGS[s], "sib_base": base[SIBLINGS[s]]})
-        yield ("bfs", {"s": s, "depth": 3 if tier == "quick" else 5, "base": base[s], "sib": SIBLINGS[s], "sib_base": base[SIBLINGS[s]]})
 
 
 # ---------------------------------------------------------------------------------------------- fingerprint
